@@ -45,8 +45,10 @@ JudgePrinted(e) ==
   LET dn == Denote(e.text) d == dn.den IN
   IF ~dn.ok THEN "printed number is not a literal of the grammar"
   ELSE IF e.n.t = "int" THEN (IF d = e.n THEN "ok" ELSE "printed integer denotes a different number")
-  ELSE IF d.t = "flt" /\ d.neg = e.n.neg /\ d.d = e.n.d /\ d.e = e.n.e THEN "ok"
-  ELSE "printed float is not the shortest decimal form of the number"
+  \* the text denotes the number - up to the last digit two shortest-digit algorithms may disagree on (NumLit!FloatAgrees);
+  \* that it reads back as the very same double is checked bit for bit by the harness
+  ELSE IF d.t = "flt" /\ FloatAgrees([t |-> "flt", neg |-> d.neg, d |-> d.d, e |-> d.e], e.n) THEN "ok"
+  ELSE "printed float does not denote the number"
 
 Init == l = 1
 Next ==
